@@ -13,11 +13,22 @@ import (
 // undecorated one, post-handshake bytes are preserved.
 func C11_debug_dialer() {
 	vRandConcrete(true)
-	t := vChoose("t", 3)
-	trailing := vBytes("trail", t)
+	t := []int{0, 1, 2, 100}[vChoose("t", 4)]
+	var trailing []byte
+	if t <= 2 {
+		trailing = vBytes("trail", t)
+	} else {
+		// more post-handshake bytes than a small read buffer holds: concrete filler, arbitrary ends
+		trailing = make([]byte, t)
+		for i := range trailing {
+			trailing[i] = byte('a' + i%26)
+		}
+		trailing[0], trailing[t-1] = vU8("tr0"), vU8("trl")
+	}
 	conn := &vLazyConn{trailing: trailing, bad: vChoose("bad", 2) == 1}
 	var req, resp []byte
-	d := DebugDialer{Dialer: ws.Dialer{NetDial: func(ctx context.Context, network, addr string) (net.Conn, error) { return conn, nil }}}
+	rbuf := []int{0, 40}[vChoose("readbuf", 2)]
+	d := DebugDialer{Dialer: ws.Dialer{ReadBufferSize: rbuf, NetDial: func(ctx context.Context, network, addr string) (net.Conn, error) { return conn, nil }}}
 	onReq, onResp := vChoose("onrequest", 2) == 1, vChoose("onresponse", 2) == 1
 	if onReq {
 		d.OnRequest = func(p []byte) { req = append(req, p...) }
@@ -44,9 +55,9 @@ func C11_debug_dialer() {
 		p, _ := br.Peek(n)
 		got = append(got, p...)
 	}
-	buf := make([]byte, 8)
+	buf := make([]byte, 16)
 	if c != nil {
-		for i := 0; i < 4; i++ {
+		for i := 0; i < 12; i++ {
 			n, e := c.Read(buf)
 			got = append(got, buf[:n]...)
 			if e != nil {
